@@ -191,9 +191,14 @@ impl<T> Arena<T> {
         self.has(id) && !id.stamp.removed() && self.at(id).stamp.0 == -(id.stamp.0 as int) - 1
     }
 
-    /// the quantifier of the properties: "live, or removed and not yet recycled"
+    /// the id that `get_node_id` reports for a removed, not yet recycled slot: it carries the slot's removed stamp
+    pub open spec fn dead_alias(&self, id: NodeId) -> bool {
+        self.has(id) && id.stamp.removed() && self.at(id).stamp == id.stamp
+    }
+
+    /// the quantifier of the properties: "live, or removed and not yet recycled" (under either of its two ids)
     pub open spec fn current(&self, id: NodeId) -> bool {
-        self.live(id) || self.dead(id)
+        self.live(id) || self.dead(id) || self.dead_alias(id)
     }
 }
 
